@@ -39,15 +39,53 @@ func ruleStitchVariableReserved(r *Run) {
 		}
 		name := constant.StringVal(k.Value)
 		n++
-		// a guard somewhere on the request path: the name of a declared variable compared with the constant
+		// a guard on the request path: the name of a declared variable is compared with the
+		// constant, the comparison itself is the condition of a branch, and on the side where
+		// the names are equal the request is refused whatever else holds: no path from there
+		// reaches a call that leads to the execution (or, in a function that reports through
+		// an error, every path from there returns one). A test that refuses only some of the
+		// operations that declare the name (`… && vd.Type.Name() != "ID"`) guards nothing: the
+		// others still have their value overwritten.
 		guarded := false
+		var partial []string
 		if h := r.P.Fn("pebbles.(*Gateway).Handler"); h != nil {
+			// the functions from which the executor's use of the variable is reached
+			leadsToExec := map[*ssa.Function]bool{fn: true}
+			work := []*ssa.Function{fn}
+			for len(work) > 0 {
+				f := work[len(work)-1]
+				work = work[:len(work)-1]
+				for _, e := range r.P.CG.In[f] {
+					if !leadsToExec[e.Caller] {
+						leadsToExec[e.Caller] = true
+						work = append(work, e.Caller)
+					}
+				}
+				if p := f.Parent(); p != nil && !leadsToExec[p] {
+					leadsToExec[p] = true
+					work = append(work, p)
+				}
+			}
 			for g := range r.P.CG.ReachableAll([]*ssa.Function{h}) {
+				exec := map[*ssa.BasicBlock]bool{}
+				for _, e := range r.P.CG.Out[g] {
+					if e.Site != nil && leadsToExec[e.Callee] {
+						exec[e.Site.Block()] = true
+					}
+				}
+				for _, i2 := range allInstrs(g) {
+					if mc, ok := i2.(*ssa.MakeClosure); ok {
+						if f, _ := mc.Fn.(*ssa.Function); f != nil && leadsToExec[f] {
+							exec[mc.Block()] = true
+						}
+					}
+				}
 				for _, i2 := range allInstrs(g) {
 					bo, ok := i2.(*ssa.BinOp)
 					if !ok || (bo.Op != token.EQL && bo.Op != token.NEQ) {
 						continue
 					}
+					isTest := false
 					for _, p := range [][2]ssa.Value{{bo.X, bo.Y}, {bo.Y, bo.X}} {
 						c, isC := p[1].(*ssa.Const)
 						if !isC || c.Value == nil || c.Value.Kind() != constant.String || constant.StringVal(c.Value) != name {
@@ -55,68 +93,73 @@ func ruleStitchVariableReserved(r *Run) {
 						}
 						if ld, ok := p[0].(*ssa.UnOp); ok && ld.Op == token.MUL {
 							if fa, ok := ld.X.(*ssa.FieldAddr); ok && fieldOf(fa) != nil && fieldOf(fa).Name() == "Variable" && strings.HasSuffix(namedOf(fa.X.Type()), "ast.VariableDefinition") {
-								guarded = true
+								isTest = true
 							}
 						}
 					}
+					if !isTest || bo.Referrers() == nil {
+						continue
+					}
+					// the side of the branch on which the names are equal
+					var v ssa.Value = bo
+					eq := bo.Op == token.EQL
+					var iff *ssa.If
+					for depth := 0; depth < 3 && iff == nil; depth++ {
+						refs := v.Referrers()
+						if refs == nil || len(*refs) != 1 {
+							break
+						}
+						switch x := (*refs)[0].(type) {
+						case *ssa.If:
+							iff = x
+						case *ssa.UnOp:
+							if x.Op != token.NOT {
+								depth = 3
+								break
+							}
+							v, eq = x, !eq
+						default:
+							depth = 3
+						}
+					}
+					if iff == nil {
+						continue // the comparison feeds something else than a branch of its own
+					}
+					side := iff.Block().Succs[0]
+					if !eq {
+						side = iff.Block().Succs[1]
+					}
+					refusesAll := false
+					if len(exec) > 0 {
+						refusesAll = !blockReachIncl(side, exec)
+					} else {
+						refusesAll = refuses(side, nil)
+					}
+					if refusesAll {
+						guarded = true
+					} else {
+						partial = append(partial, r.P.pos(bo.Pos())+" in "+fnName(g))
+					}
 				}
 			}
+		}
+		sort.Strings(partial)
+		for i, at := range partial {
+			if guarded {
+				break
+			}
+			key := "client variable `" + name + "` refused only under a further condition"
+			if i > 0 {
+				key += "#" + strconv.Itoa(i+1)
+			}
+			r.Bad(rule, fnName(fn), key, at,
+				"a declared variable's name is compared with the stitching variable `"+name+"` on the request path ("+at+"), but on the side where the names are equal the request can still go on to the execution: the operations that get past the further condition (`query($"+name+": ID!) { … }`) declare $"+name+" themselves and still have their value overwritten by the object id, while the test looks like the guard that would rule this out")
 		}
 		r.Check(!nameRe.MatchString(name) || guarded, rule, fnName(fn), "stitching variable `"+name+"` cannot collide with a client variable", r.P.pos(mu.Pos()),
 			"the name is not a legal GraphQL variable name, or a client variable of that name is refused before planning",
 			"the executor stores the object id under the variable name `"+name+"`, which a client operation may declare itself: `query($"+name+": Int) { … books(first: $"+name+") }` — the follow-up request then declares $"+name+" once, with the stitching type, and the client's value is overwritten by the object id")
 	}
 	r.AtLeast(rule, "stitching variables set by the executor", n, 1)
-}
-
-// ruleIDExemptionBySignature (R13o.id): the overlap analysis of shared types sets the relay id
-// aside — `id: ID!` without arguments, recognised by merger.isIDField. A field that is merely
-// CALLED id (`id: String!`, `id: [ID!]`) is an ordinary field whose declarations have to agree.
-// In the functions that take part in merging the fields of a shared type, a field is therefore
-// never singled out by comparing its name with the id constant outside that predicate.
-func ruleIDExemptionBySignature(r *Run) {
-	const rule = "R13o.id"
-	root := r.Anchor(rule, "merger.mergeCustomObjectFields")
-	pred := r.P.Fn("merger.isIDField")
-	if root == nil {
-		return
-	}
-	n := 0
-	for g := range r.P.CG.Reachable([]*ssa.Function{root}, nil) {
-		if topFn(g).Pkg != topFn(root).Pkg || g == pred {
-			continue
-		}
-		for _, ins := range allInstrs(g) {
-			switch x := ins.(type) {
-			case *ssa.Call:
-				if x.Call.StaticCallee() == pred && pred != nil {
-					n++
-				}
-			case *ssa.BinOp:
-				if x.Op != token.EQL && x.Op != token.NEQ {
-					continue
-				}
-				for _, p := range [][2]ssa.Value{{x.X, x.Y}, {x.Y, x.X}} {
-					c, isC := p[1].(*ssa.Const)
-					if !isC || c.Value == nil || c.Value.Kind() != constant.String || constant.StringVal(c.Value) != "id" {
-						continue
-					}
-					ld, ok := p[0].(*ssa.UnOp)
-					if !ok || ld.Op != token.MUL {
-						continue
-					}
-					fa, ok := ld.X.(*ssa.FieldAddr)
-					if !ok || fieldOf(fa) == nil || fieldOf(fa).Name() != "Name" || !strings.HasSuffix(namedOf(fa.X.Type()), "ast.FieldDefinition") {
-						continue
-					}
-					n++
-					r.Bad(rule, fnName(g), "field singled out by the name id", r.P.pos(x.Pos()),
-						"the merge of a shared type sets a field aside because it is CALLED id, not because it is the relay id (`id: ID!`, no arguments — merger.isIDField): `id: String!` in one service and `id: Int!` in another, or an `id: [ID!]` that only one side declares, no longer count as an overlap and are merged silently, the first listed service winning")
-				}
-			}
-		}
-	}
-	r.AtLeast(rule, "id exemptions in the merge of shared types", n, 1)
 }
 
 // ruleNoClientWriteDeadline (R8f.deadline): the gateway waits for a slow subscriber; it does
@@ -555,90 +598,89 @@ func safeReason(r *Run, v ssa.Value, seen map[ssa.Value]bool, depth int) (string
 // from, as access paths from the function's inputs (`req`, `req.QueryPlanStep.URL`,
 // `variables["id"]` …): every input of the value must be covered by an input of the key (the same
 // path or a shorter one), unless it cannot change during the life of the memo — a parameter of
-// the function when the map is made inside it, the receiver of the method. A verdict that
-// depends on the step AND the entity, remembered under the entity's id alone, is handed to the
-// next step that asks about the same entity. A map whose old entry goes into the new one
-// (`m[k] = merge(m[k], v)`) is an accumulator, not a memo.
-func ruleMemoKey(r *Run) {
-	const rule = "R3k.memo"
-	n := 0
-	for _, fn := range r.P.Funcs {
-		if !inModule(fn) {
-			continue
-		}
-		type acc struct {
-			at      ssa.Instruction
-			m, k, v ssa.Value
-			kind    string
-		}
-		var puts, gets []acc
-		for _, ins := range allInstrs(fn) {
-			switch x := ins.(type) {
-			case *ssa.MapUpdate:
-				puts = append(puts, acc{x, x.Map, x.Key, x.Value, "map"})
-			case *ssa.Lookup:
-				if _, isMap := x.X.Type().Underlying().(*types.Map); isMap && x.CommaOk {
-					gets = append(gets, acc{x, x.X, x.Index, x, "map"})
+// the function when the map is made inside it (or handed in by callers that have just made it
+// and pass the parameter on unchanged), the receiver of the method. A verdict that depends on
+// the step AND the entity, remembered under the entity's id alone, is handed to the next step
+// that asks about the same entity.
+//
+// What the key is computed from is followed into functions of the module that build it (which
+// parts of their parameters reach what they return); what the value is computed from takes the
+// arguments of a call as a whole. A container that is read and written through small functions
+// of its own (`cache.get(k)`, `cache.put(k, v)`) is seen at their call sites. A map whose old
+// entry goes INTO the computation of the new one (`m[k] = merge(m[k], v)`) is an accumulator, not
+// a memo; a value that is merely chosen between the old entry and a fresh one
+// (`v, ok := m.Load(k); if !ok { v = f() }; m.Store(k, v)`) is a memo.
+//
+// scope: the functions whose memos are the property's matter (nil: the whole module).
+func ruleMemoKeyIn(label string, roots ...string) ruleFn {
+	return func(r *Run) {
+		const rule = "R3k.memo"
+		var scope map[*ssa.Function]bool
+		if len(roots) > 0 {
+			var fs []*ssa.Function
+			for _, name := range roots {
+				if f := r.Anchor(rule, name); f != nil {
+					fs = append(fs, f)
 				}
-			case ssa.CallInstruction:
-				cn := calleeName(x.Common())
-				a := x.Common().Args
-				v, _ := ins.(ssa.Value)
-				switch cn {
-				case "(*sync.Map).Store", "(*sync.Map).LoadOrStore", "(*sync.Map).Swap":
-					if len(a) == 3 {
-						puts = append(puts, acc{x, a[0], a[1], a[2], "sync.Map"})
-						if cn != "(*sync.Map).Store" {
-							gets = append(gets, acc{x, a[0], a[1], v, "sync.Map"})
-						}
+			}
+			scope = r.P.CG.ReachableAll(fs)
+		}
+		accs := memoAccesses(r)
+		n := 0
+		for _, p := range accs {
+			if !p.put || (scope != nil && !scope[p.fn]) {
+				continue
+			}
+			fn := p.fn
+			// the consultations of the same memo in the same function (directly or through an
+			// accessor): a container that is filled here and read elsewhere is an index — what
+			// makes a memo is that finding the entry takes the place of computing it
+			stop := map[ssa.Value]bool{}
+			consulted := false
+			for _, g := range accs {
+				if g.put && g.got == nil {
+					continue
+				}
+				if g.at == p.at && !(g.put && g.got != nil) {
+					continue
+				}
+				if g.fn == fn && sameMemoAcc(g, p) {
+					consulted = true
+					if g.got != nil {
+						stop[g.got] = true
 					}
-				case "(*sync.Map).Load":
-					if len(a) == 2 {
-						gets = append(gets, acc{x, a[0], a[1], v, "sync.Map"})
-					}
 				}
 			}
-		}
-		for _, p := range puts {
-			vl := inputPaths(p.v)
-			if !vl.calls {
-				continue // a plain value: an index, not a memo
+			vl := p.value(stop)
+			if !vl.calls || !consulted {
+				continue // a plain value (an index, not a memo), or never consulted
 			}
-			var got ssa.Value
-			for _, g := range gets {
-				if sameMemo(g.m, p.m) && g.at != p.at {
-					got = g.v
+			accumulates := false
+			for got := range stop {
+				if vl.comp[got] {
+					accumulates = true // the old entry goes into the computation of the new one
 				}
 			}
-			if got == nil || vl.seen[got] {
-				continue // never consulted here, or the old entry flows into the new one
+			if accumulates {
+				continue
 			}
 			n++
-			kl := inputPaths(p.k)
-			// what cannot change while the memo lives
-			invariant := func(root ssa.Value) bool {
-				switch x := root.(type) {
-				case *ssa.Global, *ssa.Const, *ssa.Function:
-					return true
-				case *ssa.Parameter:
-					if fn.Signature.Recv() != nil && len(fn.Params) > 0 && x == fn.Params[0] {
-						return true
-					}
-					return madeIn(fn, p.m)
-				case *ssa.FreeVar:
-					return madeIn(fn, p.m)
-				}
-				return false
-			}
+			kl := p.key()
 			var missing []string
 			seenMissing := map[string]bool{}
 			for _, lv := range vl.leaves {
-				if invariant(lv.root) {
+				if memoInvariant(r, fn, p, lv.root, 0) {
 					continue
 				}
 				covered := false
 				for _, lk := range kl.leaves {
 					if lk.root == lv.root && (lk.path == lv.path || lk.path == "" || strings.HasPrefix(lv.path, lk.path+".")) {
+						covered = true
+					}
+					// the value is handed to a call as a whole (which parts the call uses is not
+					// known) and the key is built from parts of the same input by a helper: the
+					// rule cannot tell, as it could not before it looked into the helper
+					if lk.root == lv.root && lk.part && lv.path == "" {
 						covered = true
 					}
 				}
@@ -655,15 +697,331 @@ func ruleMemoKey(r *Run) {
 			}
 			sort.Strings(missing)
 			what := "memo"
-			if c := memoisedCall(p.v); c != nil {
-				what = "memo of " + calleeDesc(&c.Call)
+			if p.v != nil {
+				if c := memoisedCall(p.v); c != nil {
+					what = "memo of " + calleeDesc(&c.Call)
+				}
+			}
+			if p.via != nil {
+				what += " (kept through " + fnName(p.via) + ")"
 			}
 			r.Check(len(missing) == 0, rule, fnName(fn), what, r.P.pos(p.at.Pos()),
 				"everything the remembered value is computed from is part of the key it is kept under (or cannot change while the memo lives)",
 				"the value kept in this "+p.kind+" is computed from "+strings.Join(missing, ", ")+", which the key does not cover: a later question that differs only there is given the earlier answer")
 		}
+		r.OKTrivial(rule, "", "memo sites", "-", strconv.Itoa(n)+" memo(s) found "+label+" (a container that is consulted and filled with a computed value)")
 	}
-	r.OKTrivial(rule, "", "memo sites", "-", strconv.Itoa(n)+" memo(s) found in the module (a map that is consulted and then filled with a computed value in one function)")
+}
+
+// memoAcc: one access of a keyed container: a consultation (got: the value obtained) or a put.
+type memoAcc struct {
+	fn   *ssa.Function
+	at   ssa.Instruction
+	m    ssa.Value   // the container (for an access through a helper: what the helper is given)
+	id   interface{} // the field or package-level variable the container lives in, if any
+	k, v ssa.Value   // key and stored value (nil when they are only known as sets)
+	got  ssa.Value   // what a consultation yields
+	kind string
+	put  bool
+	via  *ssa.Function // the function of the module through which the access is made
+	// for an access through a helper: key and value as the helper computes them from its
+	// parameters, and the arguments of the call
+	inner *memoAcc
+	args  []ssa.Value
+}
+
+func (p *memoAcc) key() *inputSet {
+	if p.inner == nil {
+		return inputPathsOpt(p.k, pathOpts{intoCallees: true})
+	}
+	return liftSet(p.inner.key(), p.via, p.args, pathOpts{intoCallees: true})
+}
+
+func (p *memoAcc) value(stop map[ssa.Value]bool) *inputSet {
+	if p.inner == nil {
+		return inputPathsOpt(p.v, pathOpts{stop: stop})
+	}
+	return liftSet(p.inner.value(nil), p.via, p.args, pathOpts{stop: stop})
+}
+
+// liftSet: a set of inputs of function h, expressed in the inputs of the caller that hands
+// h the arguments args.
+func liftSet(sub *inputSet, h *ssa.Function, args []ssa.Value, opts pathOpts) *inputSet {
+	w := newPathWalker(opts)
+	w.out.calls = sub.calls
+	for _, lf := range sub.leaves {
+		if par, ok := lf.root.(*ssa.Parameter); ok && par.Parent() == h {
+			for i, q := range h.Params {
+				if q == par && i < len(args) {
+					w.walk(args[i], lf.path, true, 0)
+				}
+			}
+			continue
+		}
+		if _, isGlobal := lf.root.(*ssa.Global); isGlobal {
+			w.out.leaves = append(w.out.leaves, lf)
+		}
+	}
+	return w.out
+}
+
+// memoIdentity: the field or package-level variable a container value is read from.
+func memoIdentity(m ssa.Value) interface{} {
+	m = unwrap(m)
+	if ld, ok := m.(*ssa.UnOp); ok && ld.Op == token.MUL {
+		m = ld.X
+	}
+	switch x := m.(type) {
+	case *ssa.FieldAddr:
+		if f := fieldOf(x); f != nil {
+			return f
+		}
+	case *ssa.Field:
+		if f := fieldOfVal(x); f != nil {
+			return f
+		}
+	case *ssa.Global:
+		return x
+	}
+	return nil
+}
+
+// memoAccesses: every consultation and every put of a keyed container (map, sync.Map) in the
+// module, and — two levels up — the calls of functions that do nothing but pass their
+// parameters on to one.
+func memoAccesses(r *Run) []*memoAcc {
+	var accs []*memoAcc
+	for _, fn := range r.P.Funcs {
+		if !inModule(fn) {
+			continue
+		}
+		for _, ins := range allInstrs(fn) {
+			switch x := ins.(type) {
+			case *ssa.MapUpdate:
+				accs = append(accs, &memoAcc{fn: fn, at: x, m: x.Map, k: x.Key, v: x.Value, kind: "map", put: true})
+			case *ssa.Lookup:
+				if _, isMap := x.X.Type().Underlying().(*types.Map); isMap && x.CommaOk {
+					accs = append(accs, &memoAcc{fn: fn, at: x, m: x.X, k: x.Index, got: x, kind: "map"})
+				}
+			case ssa.CallInstruction:
+				cn := calleeName(x.Common())
+				a := x.Common().Args
+				v, _ := ins.(ssa.Value)
+				switch cn {
+				case "(*sync.Map).Store", "(*sync.Map).LoadOrStore", "(*sync.Map).Swap":
+					if len(a) == 3 {
+						acc := &memoAcc{fn: fn, at: x, m: a[0], k: a[1], v: a[2], kind: "sync.Map", put: true}
+						if cn != "(*sync.Map).Store" {
+							acc.got = v
+						}
+						accs = append(accs, acc)
+					}
+				case "(*sync.Map).Load":
+					if len(a) == 2 {
+						accs = append(accs, &memoAcc{fn: fn, at: x, m: a[0], k: a[1], got: v, kind: "sync.Map"})
+					}
+				}
+			}
+		}
+	}
+	for _, acc := range accs {
+		acc.id = memoIdentity(acc.m)
+	}
+	// accesses made through a function that hands its parameters on
+	level := accs
+	for round := 0; round < 2; round++ {
+		var next []*memoAcc
+		for _, in := range level {
+			h := in.fn
+			if in.id == nil || len(r.P.CG.In[h]) == 0 {
+				continue // a local container is not reached from outside
+			}
+			paramsOnly := func(s *inputSet) bool {
+				for _, lf := range s.leaves {
+					switch root := lf.root.(type) {
+					case *ssa.Parameter:
+						if root.Parent() != h {
+							return false
+						}
+					case *ssa.Global:
+					default:
+						return false
+					}
+				}
+				return true
+			}
+			ks := in.key()
+			if !paramsOnly(ks) {
+				continue
+			}
+			if in.put {
+				vs := in.value(nil)
+				if vs.calls || !paramsOnly(vs) || len(vs.leaves) == 0 {
+					continue // the helper computes the value itself: a memo site of its own
+				}
+			} else if !returnsSelected(h, in.got) {
+				continue // the helper does more than hand the entry back
+			}
+			// the container as the caller sees it
+			base := memoBase(in.m)
+			for _, e := range r.P.CG.In[h] {
+				if e.Site == nil || (e.Kind != "static" && e.Kind != "dynamic") || e.Site.Common().IsInvoke() {
+					continue
+				}
+				args := e.Site.Common().Args
+				lifted := &memoAcc{fn: e.Caller, at: e.Site, id: in.id, kind: in.kind, put: in.put, via: h, inner: in, args: args}
+				if par, ok := base.(*ssa.Parameter); ok && par.Parent() == h {
+					for i, q := range h.Params {
+						if q == par && i < len(args) {
+							lifted.m = args[i]
+						}
+					}
+				} else {
+					lifted.m = base
+				}
+				if !in.put {
+					lifted.got, _ = e.Site.(ssa.Value)
+				}
+				next = append(next, lifted)
+			}
+		}
+		accs = append(accs, next...)
+		level = next
+	}
+	return accs
+}
+
+// memoBase: the value a container is a field of (`c` for `c.m`), or the container itself.
+func memoBase(m ssa.Value) ssa.Value {
+	m = unwrap(m)
+	if ld, ok := m.(*ssa.UnOp); ok && ld.Op == token.MUL {
+		m = ld.X
+	}
+	switch x := m.(type) {
+	case *ssa.FieldAddr:
+		return unwrap(x.X)
+	case *ssa.Field:
+		return unwrap(x.X)
+	}
+	return m
+}
+
+// returnsSelected: some result of h is the consulted entry got (or chosen from it), not
+// something computed from it.
+func returnsSelected(h *ssa.Function, got ssa.Value) bool {
+	for _, ret := range returnsOf(h) {
+		for _, rv := range retVals(ret) {
+			s := inputPathsOpt(rv, pathOpts{stop: map[ssa.Value]bool{got: true}})
+			if s.hit[got] && !s.comp[got] {
+				return true
+			}
+		}
+	}
+	return false
+}
+
+func sameMemoAcc(a, b *memoAcc) bool {
+	if a.via != nil || b.via != nil {
+		if a.id == nil || a.id != b.id {
+			return false
+		}
+		if a.m == nil || b.m == nil {
+			return false
+		}
+	}
+	return sameMemo(a.m, b.m)
+}
+
+// memoInvariant: root cannot change while the memo p (filled in fn) lives.
+func memoInvariant(r *Run, fn *ssa.Function, p *memoAcc, root ssa.Value, depth int) bool {
+	switch x := root.(type) {
+	case *ssa.Global, *ssa.Const, *ssa.Function:
+		return true
+	case *ssa.Parameter:
+		if fn.Signature.Recv() != nil && len(fn.Params) > 0 && x == fn.Params[0] {
+			return true
+		}
+		if x.Parent() != fn {
+			return false
+		}
+		return mapLivesWithin(r, fn, p.m, x, depth)
+	case *ssa.FreeVar:
+		return madeIn(fn, p.m)
+	}
+	return false
+}
+
+// mapLivesWithin: the container m of fn does not outlive the value of fn's parameter q: it is
+// made in fn, or it is a parameter of fn and every caller hands in a container that does not
+// outlive what it passes for q — one it has just made while passing on a parameter of its
+// own (or a constant), or, in a recursive call, the same container with the same q.
+func mapLivesWithin(r *Run, fn *ssa.Function, m ssa.Value, q *ssa.Parameter, depth int) bool {
+	if m == nil {
+		return false
+	}
+	if madeIn(fn, m) {
+		return true
+	}
+	pm, ok := viaCell(unwrap(m)).(*ssa.Parameter)
+	if !ok || pm.Parent() != fn || depth > 3 {
+		return false
+	}
+	mi, qi := -1, -1
+	for i, par := range fn.Params {
+		if par == pm {
+			mi = i
+		}
+		if par == q {
+			qi = i
+		}
+	}
+	if mi < 0 || qi < 0 || len(r.P.CG.In[fn]) == 0 {
+		return false
+	}
+	for _, e := range r.P.CG.In[fn] {
+		if e.Site == nil || e.Kind != "static" {
+			return false
+		}
+		args := e.Site.Common().Args
+		if mi >= len(args) || qi >= len(args) {
+			return false
+		}
+		am, aq := viaCell(unwrap(args[mi])), viaCell(unwrap(args[qi]))
+		if e.Caller == fn && am == ssa.Value(pm) && aq == ssa.Value(q) {
+			continue // the recursion hands both on unchanged
+		}
+		switch y := aq.(type) {
+		case *ssa.Const, *ssa.Global:
+			if madeIn(e.Caller, am) {
+				continue
+			}
+			return false
+		case *ssa.Parameter:
+			if y.Parent() == e.Caller && mapLivesWithin(r, e.Caller, am, y, depth+1) {
+				continue
+			}
+			if e.Caller.Signature.Recv() != nil && len(e.Caller.Params) > 0 && y == e.Caller.Params[0] && madeIn(e.Caller, am) {
+				continue
+			}
+			return false
+		default:
+			return false
+		}
+	}
+	return true
+}
+
+// blockReachIncl: a block of the set is reachable from b (b included).
+func blockReachIncl(b *ssa.BasicBlock, set map[*ssa.BasicBlock]bool) bool {
+	if set[b] {
+		return true
+	}
+	for x := range blockReach(b) {
+		if set[x] {
+			return true
+		}
+	}
+	return false
 }
 
 func memoisedCall(v ssa.Value) *ssa.Call {
@@ -677,6 +1035,9 @@ func memoisedCall(v ssa.Value) *ssa.Call {
 
 // madeIn: the map m is made (make / literal) in fn itself.
 func madeIn(fn *ssa.Function, m ssa.Value) bool {
+	if m == nil {
+		return false
+	}
 	m = viaCell(unwrap(m))
 	switch x := m.(type) {
 	case *ssa.MakeMap:
@@ -704,152 +1065,310 @@ func sameMemo(a, b ssa.Value) bool {
 type inputLeaf struct {
 	root ssa.Value
 	path string
+	part bool // reached through a function of the module that uses a part of what it is handed
 }
 
 type inputSet struct {
 	leaves []inputLeaf
 	seen   map[ssa.Value]bool
-	calls  bool // a call (other than a conversion-like builtin) takes part in the computation
+	comp   map[ssa.Value]bool // reached as an operand of a computation (not merely chosen: phi, extract, conversion)
+	hit    map[ssa.Value]bool // the stop values that were reached
+	calls  bool               // a call (other than a conversion-like builtin) takes part in the computation
+	opaque bool               // something on the way may be filled in behind the walk's back (a local whose address is handed to a call)
+}
+
+type pathOpts struct {
+	intoCallees bool               // follow a call of a module function into what it returns (the key side: which parts of its parameters reach the result)
+	stop        map[ssa.Value]bool // values at which the walk ends (the consulted entry)
+	depth       int
+}
+
+type pathKey struct {
+	v   ssa.Value
+	p   string
+	sel bool
+}
+
+type pathWalker struct {
+	out  *inputSet
+	opts pathOpts
+	done map[pathKey]bool
+}
+
+func newPathWalker(opts pathOpts) *pathWalker {
+	return &pathWalker{out: &inputSet{seen: map[ssa.Value]bool{}, comp: map[ssa.Value]bool{}, hit: map[ssa.Value]bool{}}, opts: opts, done: map[pathKey]bool{}}
 }
 
 // inputPaths: what v is computed from — the roots of its backward slice (parameters, captured
 // variables, globals, loop variables) with the field path by which each is used.
-func inputPaths(v ssa.Value) *inputSet {
-	out := &inputSet{seen: map[ssa.Value]bool{}}
-	type key struct {
-		v ssa.Value
-		p string
+func inputPaths(v ssa.Value) *inputSet { return inputPathsOpt(v, pathOpts{}) }
+
+func inputPathsOpt(v ssa.Value, opts pathOpts) *inputSet {
+	w := newPathWalker(opts)
+	if v != nil {
+		w.walk(v, "", true, 0)
 	}
-	done := map[key]bool{}
-	var walk func(v ssa.Value, path string, depth int)
+	return w.out
+}
+
+func joinPath(f, path string) string {
+	if path == "" {
+		return f
+	}
+	return f + "." + path
+}
+
+// walk: sel is true as long as v has only been reached through choices (phi, extract, load of
+// a local cell, conversion) from the value the walk started at.
+func (w *pathWalker) walk(v ssa.Value, path string, sel bool, depth int) {
+	out := w.out
+	if v == nil || depth > 60 || w.done[pathKey{v, path, sel}] {
+		return
+	}
+	w.done[pathKey{v, path, sel}] = true
+	out.seen[v] = true
+	if !sel {
+		out.comp[v] = true
+	}
+	if w.opts.stop[v] {
+		out.hit[v] = true
+		return
+	}
 	add := func(root ssa.Value, path string) {
-		out.leaves = append(out.leaves, inputLeaf{root, path})
+		out.leaves = append(out.leaves, inputLeaf{root: root, path: path})
 	}
-	join := func(f, path string) string {
-		if path == "" {
-			return f
+	switch x := v.(type) {
+	case *ssa.Const, *ssa.Function, *ssa.Builtin:
+		return
+	case *ssa.Parameter, *ssa.FreeVar, *ssa.Global, *ssa.Next:
+		add(v, path)
+		return
+	case *ssa.Phi:
+		// a loop variable is an input; a join of alternatives is computed from its edges
+		loopVar := false
+		for _, p := range x.Block().Preds {
+			if x.Block().Dominates(p) {
+				loopVar = true
+			}
 		}
-		return f + "." + path
-	}
-	walk = func(v ssa.Value, path string, depth int) {
-		if v == nil || depth > 60 || done[key{v, path}] {
-			return
-		}
-		done[key{v, path}] = true
-		out.seen[v] = true
-		switch x := v.(type) {
-		case *ssa.Const, *ssa.Function, *ssa.Builtin:
-			return
-		case *ssa.Parameter, *ssa.FreeVar, *ssa.Global, *ssa.Next:
+		if loopVar {
 			add(v, path)
 			return
-		case *ssa.Phi:
-			// a loop variable is an input; a join of alternatives is computed from its edges
-			loopVar := false
-			for _, p := range x.Block().Preds {
-				if x.Block().Dominates(p) {
-					loopVar = true
-				}
-			}
-			if loopVar {
-				add(v, path)
-				return
-			}
-			for _, e := range x.Edges {
-				walk(e, path, depth+1)
-			}
-			return
-		case *ssa.MakeMap, *ssa.MakeSlice, *ssa.MakeChan:
-			return
-		case *ssa.Alloc:
-			for _, st := range storesTo(x) {
-				walk(st.Val, path, depth+1)
-			}
-			if x.Referrers() != nil {
-				for _, ref := range *x.Referrers() {
-					if fa, ok := ref.(*ssa.FieldAddr); ok && fa.Referrers() != nil {
-						for _, r2 := range *fa.Referrers() {
-							if st, ok := r2.(*ssa.Store); ok && st.Addr == ssa.Value(fa) {
-								walk(st.Val, "", depth+1)
-							}
+		}
+		for _, e := range x.Edges {
+			w.walk(e, path, sel, depth+1)
+		}
+		return
+	case *ssa.MakeMap, *ssa.MakeSlice, *ssa.MakeChan:
+		return
+	case *ssa.Alloc:
+		// a local whose address goes to more than the one call the walk came through (a
+		// strings.Builder written to and then asked for its String): filled behind the walk's back
+		if len(callsHandedTo(x)) > 1 {
+			out.opaque = true
+		}
+		for _, st := range storesTo(x) {
+			w.walk(st.Val, path, sel, depth+1)
+		}
+		if x.Referrers() != nil {
+			for _, ref := range *x.Referrers() {
+				if fa, ok := ref.(*ssa.FieldAddr); ok && fa.Referrers() != nil {
+					for _, r2 := range *fa.Referrers() {
+						if st, ok := r2.(*ssa.Store); ok && st.Addr == ssa.Value(fa) {
+							w.walk(st.Val, "", false, depth+1)
 						}
 					}
 				}
 			}
-			return
-		case *ssa.UnOp:
-			walk(x.X, path, depth+1)
-			return
-		case *ssa.FieldAddr:
-			name := "?"
-			if f := fieldOf(x); f != nil {
-				name = f.Name()
+		}
+		return
+	case *ssa.UnOp:
+		if x.Op == token.MUL {
+			// a read of a local (or of a part of it) whose address is also handed to a call:
+			// what is read may have been put there by that call
+			base := x.X
+			for {
+				if fa, ok := base.(*ssa.FieldAddr); ok {
+					base = fa.X
+				} else if ia, ok := base.(*ssa.IndexAddr); ok {
+					base = ia.X
+				} else {
+					break
+				}
 			}
-			walk(x.X, join(name, path), depth+1)
-			return
-		case *ssa.Field:
-			name := "?"
-			if f := fieldOfVal(x); f != nil {
-				name = f.Name()
+			if al, ok := base.(*ssa.Alloc); ok && len(callsHandedTo(al)) > 0 {
+				out.opaque = true
 			}
-			walk(x.X, join(name, path), depth+1)
-			return
-		case *ssa.Lookup:
-			if k, ok := x.Index.(*ssa.Const); ok && k.Value != nil && k.Value.Kind() == constant.String {
-				walk(x.X, join("["+constant.StringVal(k.Value)+"]", path), depth+1)
-			} else {
-				walk(x.X, join("[]", path), depth+1)
-				walk(x.Index, "", depth+1)
-			}
-			return
-		case *ssa.IndexAddr:
-			// an element of a list: the element itself is what varies (the loop variable); its
-			// identity is the load, so the list and the index are its roots
-			walk(x.X, join("[]", path), depth+1)
-			walk(x.Index, "", depth+1)
-			return
-		case *ssa.Extract:
-			if _, isNext := x.Tuple.(*ssa.Next); isNext {
-				add(x.Tuple, strconv.Itoa(x.Index))
-				return
-			}
-			walk(x.Tuple, path, depth+1)
-			return
-		case *ssa.TypeAssert:
-			walk(x.X, path, depth+1)
-			return
-		case *ssa.MakeInterface:
-			walk(x.X, path, depth+1)
-			return
-		case *ssa.ChangeType:
-			walk(x.X, path, depth+1)
-			return
-		case *ssa.Convert:
-			walk(x.X, path, depth+1)
-			return
-		case *ssa.ChangeInterface:
-			walk(x.X, path, depth+1)
-			return
-		case *ssa.Call:
-			if b, ok := x.Call.Value.(*ssa.Builtin); !ok || (b.Name() != "len" && b.Name() != "cap" && b.Name() != "append" && b.Name() != "copy") {
-				out.calls = true
-			}
-			if x.Call.IsInvoke() {
-				walk(x.Call.Value, "", depth+1)
-			}
-			for _, a := range x.Call.Args {
-				walk(a, "", depth+1)
-			}
+		}
+		if _, isCell := x.X.(*ssa.Alloc); isCell && x.Op == token.MUL {
+			w.walk(x.X, path, sel, depth+1)
 			return
 		}
-		if ins, ok := v.(ssa.Instruction); ok {
-			for _, op := range operandsOf(ins) {
-				walk(op, "", depth+1)
+		w.walk(x.X, path, sel && x.Op == token.MUL, depth+1)
+		return
+	case *ssa.FieldAddr:
+		name := "?"
+		if f := fieldOf(x); f != nil {
+			name = f.Name()
+		}
+		w.walk(x.X, joinPath(name, path), false, depth+1)
+		return
+	case *ssa.Field:
+		name := "?"
+		if f := fieldOfVal(x); f != nil {
+			name = f.Name()
+		}
+		w.walk(x.X, joinPath(name, path), false, depth+1)
+		return
+	case *ssa.Lookup:
+		if k, ok := x.Index.(*ssa.Const); ok && k.Value != nil && k.Value.Kind() == constant.String {
+			w.walk(x.X, joinPath("["+constant.StringVal(k.Value)+"]", path), false, depth+1)
+		} else {
+			w.walk(x.X, joinPath("[]", path), false, depth+1)
+			w.walk(x.Index, "", false, depth+1)
+		}
+		return
+	case *ssa.IndexAddr:
+		// an element of a list: the element itself is what varies (the loop variable); its
+		// identity is the load, so the list and the index are its roots
+		w.walk(x.X, joinPath("[]", path), false, depth+1)
+		w.walk(x.Index, "", false, depth+1)
+		return
+	case *ssa.Extract:
+		if _, isNext := x.Tuple.(*ssa.Next); isNext {
+			add(x.Tuple, strconv.Itoa(x.Index))
+			return
+		}
+		if c, ok := x.Tuple.(*ssa.Call); ok && w.intoCallee(c, x.Index, sel, depth) {
+			return
+		}
+		w.walk(x.Tuple, path, sel, depth+1)
+		return
+	case *ssa.TypeAssert:
+		w.walk(x.X, path, sel, depth+1)
+		return
+	case *ssa.MakeInterface:
+		w.walk(x.X, path, sel, depth+1)
+		return
+	case *ssa.ChangeType:
+		w.walk(x.X, path, sel, depth+1)
+		return
+	case *ssa.Convert:
+		w.walk(x.X, path, sel, depth+1)
+		return
+	case *ssa.ChangeInterface:
+		w.walk(x.X, path, sel, depth+1)
+		return
+	case *ssa.Call:
+		if w.intoCallee(x, -1, sel, depth) {
+			return
+		}
+		if b, ok := x.Call.Value.(*ssa.Builtin); !ok || (b.Name() != "len" && b.Name() != "cap" && b.Name() != "append" && b.Name() != "copy") {
+			out.calls = true
+		}
+		if x.Call.IsInvoke() {
+			w.walk(x.Call.Value, "", false, depth+1)
+		}
+		for _, a := range x.Call.Args {
+			w.walk(a, "", false, depth+1)
+		}
+		return
+	}
+	if ins, ok := v.(ssa.Instruction); ok {
+		for _, op := range operandsOf(ins) {
+			w.walk(op, "", false, depth+1)
+		}
+	}
+}
+
+// callsHandedTo: the calls that are handed the address of the local al — as it is, wrapped in
+// an interface, or as the address of a part of it: what al holds may be written there.
+func callsHandedTo(al *ssa.Alloc) map[ssa.Instruction]bool {
+	out := map[ssa.Instruction]bool{}
+	var follow func(v ssa.Value, depth int)
+	follow = func(v ssa.Value, depth int) {
+		if v.Referrers() == nil || depth > 3 {
+			return
+		}
+		for _, ref := range *v.Referrers() {
+			switch y := ref.(type) {
+			case ssa.CallInstruction:
+				for _, arg := range y.Common().Args {
+					if arg == v {
+						out[ref] = true
+					}
+				}
+			case *ssa.MakeInterface, *ssa.ChangeType, *ssa.Convert, *ssa.Slice, *ssa.IndexAddr, *ssa.FieldAddr:
+				follow(ref.(ssa.Value), depth+1)
 			}
 		}
 	}
-	walk(v, "", 0)
+	follow(al, 0)
 	return out
+}
+
+// intoCallee: on the key side, a call of a function of the module stands for what the function
+// returns: the parts of its parameters that reach the result (a parameter it is handed but does
+// not put into the key is not part of the key). Inputs of the callee that are not its parameters
+// or package-level variables are left out: the key side is an under-approximation.
+func (w *pathWalker) intoCallee(c *ssa.Call, idx int, sel bool, depth int) bool {
+	if !w.opts.intoCallees || w.opts.depth > 3 || c.Call.IsInvoke() {
+		return false
+	}
+	sc := c.Call.StaticCallee()
+	if sc == nil || !inModule(sc) || sc.Blocks == nil {
+		return false
+	}
+	type hop struct {
+		arg  int
+		path string
+	}
+	var hops []hop
+	var globals []inputLeaf
+	for _, ret := range returnsOf(sc) {
+		for i, rv := range retVals(ret) {
+			if idx >= 0 && i != idx {
+				continue
+			}
+			sub := inputPathsOpt(rv, pathOpts{intoCallees: true, depth: w.opts.depth + 1})
+			if sub.opaque {
+				return false
+			}
+			for _, lf := range sub.leaves {
+				switch root := lf.root.(type) {
+				case *ssa.Parameter:
+					found := false
+					for pi, q := range sc.Params {
+						if q == root && pi < len(c.Call.Args) {
+							hops = append(hops, hop{pi, lf.path})
+							found = true
+						}
+					}
+					if !found {
+						return false
+					}
+				case *ssa.Global:
+					globals = append(globals, lf)
+				default:
+					// a loop variable, a captured variable: what it ranges over is not followed —
+					// the callee's result is not fully accounted for, the call stays a whole
+					return false
+				}
+			}
+		}
+	}
+	w.out.calls = true
+	w.out.leaves = append(w.out.leaves, globals...)
+	for _, h := range hops {
+		before := len(w.out.leaves)
+		w.walk(c.Call.Args[h.arg], h.path, false, depth+1)
+		if h.path != "" {
+			for i := before; i < len(w.out.leaves); i++ {
+				w.out.leaves[i].part = true
+			}
+		}
+	}
+	return true
 }
 
 func leafName(v ssa.Value) string {
@@ -875,7 +1394,10 @@ func leafName(v ssa.Value) string {
 // CompareAndSwap on a shared word) is a ticket: which goroutine gets which value is decided by
 // the scheduler. Counting is harmless; letting the ticket decide something — which of several
 // concurrent batches is refused once a shared budget is used up — makes the outcome of one and
-// the same request differ from run to run. The result of such an operation must not be used.
+// the same request differ from run to run. The result of such an operation must not be used,
+// and neither may the word be read back on the query path (atomic.Load, the Load method, a
+// plain read of the field): what is read is the count as the other goroutines have left it at
+// that moment — the same ticket, taken in two steps.
 func ruleArrivalOrder(r *Run) {
 	const rule = "R4c.arrival"
 	n := 0
@@ -886,44 +1408,104 @@ func ruleArrivalOrder(r *Run) {
 	// the query path only: a once-guard (`if !closed.CompareAndSwap(false, true) { return }`) in
 	// the subscription teardown is a different matter (R8)
 	onPath := r.P.CG.ReachableAll([]*ssa.Function{h})
+	var fns []*ssa.Function
 	for _, fn := range r.P.Funcs {
-		if !inModule(fn) || !onPath[fn] {
-			continue
+		if inModule(fn) && onPath[fn] {
+			fns = append(fns, fn)
 		}
+	}
+	// the word an address stands for: the field, the package-level variable, else the address
+	wordOf := func(addr ssa.Value) interface{} {
+		addr = unwrap(addr)
+		switch x := addr.(type) {
+		case *ssa.FieldAddr:
+			if f := fieldOf(x); f != nil {
+				return f
+			}
+		case *ssa.Global:
+			return x
+		}
+		return addr
+	}
+	used := func(v ssa.Value) bool {
+		if refs := v.Referrers(); refs != nil {
+			for _, ref := range *refs {
+				if _, dbg := ref.(*ssa.DebugRef); !dbg {
+					return true
+				}
+			}
+		}
+		return false
+	}
+	atomicCall := func(ins ssa.Instruction) (*ssa.Call, string) {
+		c, ok := ins.(*ssa.Call)
+		if !ok {
+			return nil, ""
+		}
+		sc := c.Call.StaticCallee()
+		if sc == nil || sc.Pkg == nil || sc.Pkg.Pkg.Path() != "sync/atomic" || len(c.Call.Args) == 0 {
+			return nil, ""
+		}
+		return c, sc.Name()
+	}
+	counted := map[interface{}]string{} // words that are the target of a read-modify-write → where
+	for _, fn := range fns {
 		k := 0
 		for _, ins := range allInstrs(fn) {
-			c, ok := ins.(*ssa.Call)
-			if !ok {
+			c, name := atomicCall(ins)
+			if c == nil {
 				continue
 			}
-			sc := c.Call.StaticCallee()
-			if sc == nil || sc.Pkg == nil || sc.Pkg.Pkg.Path() != "sync/atomic" {
-				continue
-			}
-			name := sc.Name()
 			if !(strings.HasPrefix(name, "Add") || strings.HasPrefix(name, "Swap") || strings.HasPrefix(name, "CompareAndSwap") || strings.HasPrefix(name, "Or") || strings.HasPrefix(name, "And")) {
 				continue
 			}
 			n++
 			k++
-			used := false
-			if refs := c.Referrers(); refs != nil {
-				for _, ref := range *refs {
-					if _, dbg := ref.(*ssa.DebugRef); !dbg {
-						used = true
-					}
-				}
-			}
+			counted[wordOf(c.Call.Args[0])] = r.P.pos(c.Pos())
 			key := "result of atomic " + name
 			if k > 1 {
 				key += "#" + strconv.Itoa(k)
 			}
-			r.Check(!used, rule, fnName(fn), key, r.P.pos(c.Pos()),
+			r.Check(!used(c), rule, fnName(fn), key, r.P.pos(c.Pos()),
 				"the shared word is only counted up or down here; the value handed back is not used",
 				"the value handed back by an atomic "+name+" on a shared word is used: it depends on the order in which the goroutines got there, so what it decides (which of several concurrent batches is refused, which request is the first) differs from run to run for the same request")
 		}
 	}
-	r.OKTrivial(rule, "", "atomic read-modify-write sites", "-", strconv.Itoa(n)+" site(s) on the query path ("+strconv.Itoa(len(onPath))+" functions reachable from the handler)")
+	reads := 0
+	if len(counted) > 0 {
+		for _, fn := range fns {
+			k := 0
+			for _, ins := range allInstrs(fn) {
+				var v ssa.Value
+				var word interface{}
+				how := ""
+				if c, name := atomicCall(ins); c != nil && strings.HasPrefix(name, "Load") {
+					v, word, how = c, wordOf(c.Call.Args[0]), "atomic "+name
+				} else if ld, ok := ins.(*ssa.UnOp); ok && ld.Op == token.MUL {
+					switch ld.X.(type) {
+					case *ssa.FieldAddr, *ssa.Global:
+						if _, isBasic := ld.Type().Underlying().(*types.Basic); isBasic {
+							v, word, how = ld, wordOf(ld.X), "plain read"
+						}
+					}
+				}
+				where, isCounted := counted[word]
+				if v == nil || !isCounted {
+					continue
+				}
+				reads++
+				k++
+				key := "shared word read back"
+				if k > 1 {
+					key += "#" + strconv.Itoa(k)
+				}
+				r.Check(!used(v), rule, fnName(fn), key, r.P.pos(ins.Pos()),
+					"the value read is not used",
+					"a word that is counted with an atomic read-modify-write on the query path ("+where+") is read back here ("+how+") and the value is used: it is the count as the other goroutines have left it at that moment, so what it decides (which of several concurrent batches is refused once a budget is used up) depends on the order in which they got there and differs from run to run for the same request")
+			}
+		}
+	}
+	r.OKTrivial(rule, "", "atomic read-modify-write sites", "-", strconv.Itoa(n)+" site(s) on the query path, "+strconv.Itoa(reads)+" read(s) of a word counted there ("+strconv.Itoa(len(onPath))+" functions reachable from the handler)")
 }
 
 // maxCloseReason: a control frame carries 125 bytes, two of which are the status code.
